@@ -74,22 +74,6 @@ for _p, _t in _STATIC.items():
         text=_t + ". Each harness is one CBMC query over the compiled MIR of the working tree; a failed assertion is reported only after native reproduction.",
         note=_STATIC_NOTE + (" For C06 the clause about the two real backends (embedded CaDiCaL / external process) is outside: the oracle stands for every backend honouring the SatSolver contract, that the real ones honour it is C15." if _p == "C06" else "") + (" For C16 the reply parser and the 'cannot hang' clause, for C17 the external reply kinds and the exit status, for C18 the PR/ID/SST/STG bounds are outside." if _p in ("C16", "C17", "C18") else ""),
         design="DESIGN.md sections 3.3, 3.4, 4")
-CHECKS["C08"] = dict(
-    category="model_checking",
-    technique="Kani/CBMC bounded model checking of the dynamic complete / stable solvers on concrete update-query histories with a demonic SAT oracle",
-    text="Concrete histories over two labels (building, cached and uncached queries with and without certificate, attack removal, argument removal and "
-         "re-insertion, a framework without stable extension) are run on the real dynamic solvers next to a set model; CBMC decides over every model the "
-         "backend may return that each answer and certificate is the one of the current framework.",
-    note="Histories are the handful listed in kani/src/h_dynamic.rs. OUTSIDE: DynamicPreferredSemanticsSolver and the two assumptions-on-attacks solvers "
-         "(beyond CBMC's reach), longer histories, more labels. Same trusted base as the static harnesses.",
-    design="DESIGN.md section 4 (C08/C09)")
-CHECKS["C09"] = dict(
-    category="model_checking",
-    technique="Kani/CBMC bounded model checking of the dynamic complete / stable solvers on concrete histories with redundant and invalid updates, demonic SAT oracle",
-    text="As C08 with redundant (existing argument / attack) and invalid (unknown argument / attack) updates at several positions: the Result of each update "
-         "call must be an error exactly for the invalid ones, and all later answers must be those of the framework without the rejected or redundant operation.",
-    note="Same bounds and exclusions as C08.",
-    design="DESIGN.md section 4 (C08/C09)")
 CHECKS["C14"] = dict(
     category="model_checking",
     technique="Kani/CBMC bounded model checking of the real response writers and AspartixWriter::write_framework against a reference printer/reader (formatting not stubbed)",
@@ -108,6 +92,8 @@ CHECKS["C12"] = dict(
     design="DESIGN.md section 4 (C12)")
 
 NOT_APPLICABLE = {
+    "C08": "CBMC does not get through the dynamic solvers: none of 12 harnesses (histories of 4-9 events over two labels, even with a single query: new a, new b, b->a, DS a) finished symbolic execution within 20-30 minutes. Diagnosis: the buffered encoders keep updates in a Vec of an enum with payloads (DynamicsEvent); labels read back from that union lose constant propagation, every lookup becomes symbolic and the whole solver state with it. The harness bodies exist (kani/src/dynamics.rs, h_dynamic.rs) and their native self-test found four genuine defects of the dynamic solvers (fixed, see known_findings.json), but no solver-based check can be offered",
+    "C09": "same code and same obstacle as C08 (measured: no harness with redundant/invalid updates finished within 20 minutes)",
     "C11": "needs frameworks of 20-300 arguments; symbolic execution of the solvers reaches <=3 arguments, where the property is a corollary of C01-C03",
     "C15": "the behaviour specified is that of CaDiCaL (C++ behind FFI) and of an external process; neither can be compiled to the solver's input",
 }
